@@ -99,14 +99,18 @@ func (v fval) itemBytes() [][]byte {
 }
 
 type wtype struct {
-	name   string
-	bare   bool
-	slots  []slot
-	enc    func(v []fval) ([]byte, error)
-	dec    func(b []byte) ([]fval, error)
-	weight float64 // scales the number of generated cases (heavy types get fewer)
-	capLen int     // generator cap on item/byte lengths where the declared limit is huge
-	capN   int     // generator cap on counts where the declared limit is huge
+	name     string
+	bare     bool
+	slots    []slot
+	enc      func(v []fval) ([]byte, error)
+	dec      func(b []byte) ([]fval, error)
+	lastRead func() []fval // reads the most recently decoded object of this type AGAIN (it is kept alive on purpose)
+	lastStr  string        // what it read as right after decoding
+	nRetain  int
+	nChanged int
+	weight   float64 // scales the number of generated cases (heavy types get fewer)
+	capLen   int     // generator cap on item/byte lengths where the declared limit is huge
+	capN     int     // generator cap on counts where the declared limit is huge
 }
 
 type sszObj interface {
@@ -130,6 +134,7 @@ func mk[T any, PT interface {
 			if err := p.UnmarshalSSZ(b); err != nil {
 				return nil, err
 			}
+			retainHook = func() []fval { return read(p) }
 			return read(p), nil
 		}}
 }
@@ -150,9 +155,26 @@ func safeDec(t *wtype, b []byte) (v []fval, err error, panicked bool) {
 			panicked = true
 		}
 	}()
-	v, err = t.dec(append([]byte{}, b...))
+	retainHook = nil
+	in := append([]byte{}, b...)
+	v, err = t.dec(in)
+	// a decoded value is a value: the object decoded BEFORE this one (kept alive) must still read as it did, whatever was
+	// decoded since
+	if t.lastRead != nil {
+		t.nRetain++
+		if now := t.outStr(t.lastRead()); now != t.lastStr {
+			t.nChanged++
+		}
+	}
+	t.lastRead = nil
+	if err == nil && retainHook != nil {
+		t.lastRead, t.lastStr = retainHook, t.outStr(v)
+	}
 	return
 }
+
+// set by the decoders built with mk / mkz: re-reads the object they just decoded
+var retainHook func() []fval
 
 func fb(b []byte) fval           { return fval{b: lit(append([]byte{}, b...))} }
 func fn(n uint64) fval           { return fval{num: n} }
@@ -417,6 +439,7 @@ func mkz[T any, PT interface {
 			if err := zdec(p, b); err != nil {
 				return nil, err
 			}
+			retainHook = func() []fval { return read(p) }
 			return read(p), nil
 		}}
 }
@@ -1184,6 +1207,13 @@ func runC14(o *Out, r *rand.Rand, thorough bool, _ []string) {
 		scale = 20
 	}
 	types := c14Types()
+	defer func() {
+		for _, t := range types {
+			if t.nRetain > 0 {
+				o.Case(fmt.Sprintf("retain %s n=%d", t.name, t.nRetain), fmt.Sprintf("changed=%d", t.nChanged))
+			}
+		}
+	}()
 	for _, t := range types {
 		nVal := int(110 * scale * t.weight)
 		if nVal < 3 {
